@@ -449,3 +449,66 @@ Example C12_ex_alignment_strings :
   /\ read_alignment (Some (lit "justify")) (Some (lit "before")) = Some (mkAlign None (Some VTop))
   /\ read_alignment (Some (lit "LEFT")) (Some (lit "top")) = None.
 Proof. vm_compute. repeat split. Qed.
+
+(* ==== round 4: tts:textAlign carried by <p> / <span> and by styles (model/DfxpStyleAlign.v) =========================== *)
+From PV Require Import model.DfxpStyleAlign proofs.Pos12StyleAlignFacts.
+
+(* LayoutInfoScraper._find_attribute for tts:textAlign: the element's own attribute, else the first of its style sources
+   with a value, else the NEAREST parent with a value (own or styled), else the region *)
+Theorem C12_text_align_precedence :
+  (forall v st parents region, find_text_align (Some (mkSrc (Some v) st)) parents region = Some v)
+  /\ (forall pre c v post parents region, Forall (fun x => x = None) pre ->
+        find_text_align (Some (mkSrc None (pre ++ Some (c :: v) :: post))) parents region = Some (c :: v))
+  /\ (forall e pre p c v outer region, plain e -> Forall plain pre -> on_element_or_styles p = Some (c :: v) ->
+        find_text_align (Some e) (pre ++ p :: outer) region = Some (c :: v))
+  /\ (forall e parents region, plain e -> Forall plain parents ->
+        find_text_align (Some e) parents region = on_element_or_styles region).
+Proof. exact (conj own_attribute_wins (conj first_style_wins (conj nearest_parent_wins region_is_last))). Qed.
+Print Assumptions C12_text_align_precedence.
+
+(* written elements, PARTIAL: per element, not yet composed with the tree walk of C12_dfxp_layout_roundtrip_written (the
+   full statement: for every caption set with caption / node styles carrying text-align, every word of
+   read (write set) has horizontal alignment = the nearest text-align of its <span> / <p>, else its layout's; vertical
+   alignment and origin / extent / padding as in C12_dfxp_layout_roundtrip_written).
+   Proved: (a) an element with no text-align on itself and its parents reads back the alignment of the layout its region
+   was made from, absent parts start / after - the hypothesis-free case of the tree theorem; (b) an element for which the
+   lookup finds the name of t - own attribute from the caption style / style node, a style class, or the nearest styled
+   ancestor - reads back horizontal t WHATEVER the layout's alignment says (also when a <span> has a region of its own),
+   vertical from the layout *)
+Theorem C12_dfxp_style_alignment_roundtrip_partial :
+  (forall e parents a, plain e -> Forall plain parents ->
+     element_alignment (Some e) parents (region_ta a) (region_da a) = Some (mkAlign (Some (h_of a)) (Some (v_of a))))
+  /\ (forall e parents a t, find_text_align (Some e) parents (region_ta a) = Some (halign_name t) ->
+        element_alignment (Some e) parents (region_ta a) (region_da a) = Some (mkAlign (Some t) (Some (v_of a)))).
+Proof. exact (conj written_plain_alignment written_styled_alignment). Qed.
+Print Assumptions C12_dfxp_style_alignment_roundtrip_partial.
+
+(* <p tts:textAlign="center" region=r0> with r0 made from alignment (left, top), holding a <span region=r1> without
+   text-align whose region says right: the span's words come back CENTER (the <p>'s attribute is found before the span's
+   region), vertical from the span's region *)
+Example C12_ex_style_alignment :
+  let p := mkSrc (Some (lit "center")) [] in
+  let span := mkSrc None [] in
+  let a1 := Some (mkAlign (Some HRight) (Some VCenter)) in
+  element_alignment (Some span) [p; mkSrc None []] (region_ta a1) (region_da a1) = Some (mkAlign (Some HCenter) (Some VCenter))
+  /\ element_alignment (Some (mkSrc None [None; Some (lit "end")])) [p] (region_ta a1) (region_da a1) = Some (mkAlign (Some HEnd) (Some VCenter))
+  /\ plain span.
+Proof. vm_compute. repeat split; repeat constructor. Qed.
+
+(* the link to the tree theorem: on an element without style-carried text-align (itself and its parents) the style-aware
+   scraper gives exactly the alignment of read_region of the element's region - C12_dfxp_layout_roundtrip_written is the
+   style-free instance of the style-aware reader; with a style in charge the two differ in the horizontal member only *)
+From PV Require Import proofs.Pos12StyleLinkFacts.
+Theorem C12_plain_element_is_read_region : forall e parents l r, plain e -> Forall plain parents ->
+  read_region (layout_attrs l) = Ok r ->
+  element_alignment (Some e) parents (region_ta (l_alignment l)) (region_da (l_alignment l)) = l_alignment r.
+Proof. exact plain_element_is_read_region. Qed.
+Print Assumptions C12_plain_element_is_read_region.
+
+Theorem C12_styled_element_overrides_horizontal : forall e parents l r t,
+  find_text_align (Some e) parents (region_ta (l_alignment l)) = Some (halign_name t) ->
+  read_region (layout_attrs l) = Ok r ->
+  element_alignment (Some e) parents (region_ta (l_alignment l)) (region_da (l_alignment l))
+  = Some (mkAlign (Some t) (match l_alignment r with Some a => al_v a | None => None end)).
+Proof. exact styled_element_overrides_h. Qed.
+Print Assumptions C12_styled_element_overrides_horizontal.
